@@ -30,6 +30,8 @@ pub enum VarError {
 /// 1. Value is not in the environment
 /// 2. Value exists but is not utf-8
 pub fn var_unix(key: &UnixStr) -> Result<&'static UnixStr, VarError> {
+    // Length of the key without the null terminator
+    let key_len = key.len().saturating_sub(1);
     let mut env_ptr = unsafe { ENV.env_p };
     while !env_ptr.is_null() {
         unsafe {
@@ -39,13 +41,11 @@ pub fn var_unix(key: &UnixStr) -> Result<&'static UnixStr, VarError> {
                 return Err(VarError::Missing);
             }
             let match_up_to = key.match_up_to(UnixStr::from_ptr(var_ptr));
-            if match_up_to != 0 {
-                // Next is '='
-                if var_ptr.add(match_up_to).read() == b'=' {
-                    // # Safety
-                    // Trusting the OS to null terminate
-                    return Ok(UnixStr::from_ptr(var_ptr.add(match_up_to + 1)));
-                }
+            // The whole key has to match the name, and the name has to end there, next is '='
+            if match_up_to == key_len && var_ptr.add(match_up_to).read() == b'=' {
+                // # Safety
+                // Trusting the OS to null terminate
+                return Ok(UnixStr::from_ptr(var_ptr.add(match_up_to + 1)));
             }
 
             env_ptr = env_ptr.add(1);
@@ -68,14 +68,12 @@ pub fn var(key: &str) -> Result<&'static str, VarError> {
                 return Err(VarError::Missing);
             }
             let match_up_to = UnixStr::from_ptr(var_ptr).match_up_to_str(key);
-            if match_up_to != 0 {
-                // Next is '='
-                if var_ptr.add(match_up_to).read() == b'=' {
-                    let value_len = strlen(var_ptr.add(match_up_to + 1));
-                    let value_slice =
-                        core::slice::from_raw_parts(var_ptr.add(match_up_to + 1), value_len);
-                    return core::str::from_utf8(value_slice).map_err(VarError::NotUnicode);
-                }
+            // The whole key has to match the name, and the name has to end there, next is '='
+            if match_up_to == key.len() && var_ptr.add(match_up_to).read() == b'=' {
+                let value_len = strlen(var_ptr.add(match_up_to + 1));
+                let value_slice =
+                    core::slice::from_raw_parts(var_ptr.add(match_up_to + 1), value_len);
+                return core::str::from_utf8(value_slice).map_err(VarError::NotUnicode);
             }
 
             env_ptr = env_ptr.add(1);
